@@ -70,6 +70,8 @@ def impl(case):
         grammar = build_grammar(case["grammar"])
     except KeyError:
         return {"skip": True, "why": "empty language (C01 known finding)"}
+    if grammar.start not in grammar.rules:
+        return {"skip": True, "why": "empty language"}
     n = grammar.programs()
     if n <= 0 or n > case.get("max_lang", 1500):
         return {"skip": True, "why": "language size %d outside [1, max_lang]" % n}
